@@ -126,6 +126,64 @@ PROPS = {
                        'the regenerated decoder table checks that every fallible read has its error returned before the receiver is assigned.',
         'assumptions': ['encoding/json rejects every strict prefix of a marshalled object (standard library, exhaustively tested per sampled document)'],
     },
+
+    'C08': {
+        'lean_modules': ['C08', 'C04'],
+        'required_theorems': ['C08_cms_update', 'C08_cms_count', 'C08_cms_merge', 'C08_hll_update', 'C08_hll_merge', 'C08_bloom_insert', 'C08_bloom_lookup',
+                              'C04_mem_refines_spec', 'C04_redis_refines_spec'],
+        'suites': ['lockstep', 'cms', 'hll', 'bloom', 'topk'],
+        'level': 'proof',
+        'explanation': 'Lean: the Redis-level models (store, commands, the Lua scripts transcribed) of Count-Min, HyperLogLog and Bloom are proved to simulate the in-memory models step for step (same answers, same abstract state); '
+                       'both Top-K variants refine one specification (equal up to ties at the minimum); for cuckoo both bucket kinds satisfy the same bucket laws (C02/C13). '
+                       'Suite `lockstep` applies one history to a memory and a Redis instance and compares every answer; the per-structure suites tie each backend to its model.',
+        'assumptions': ['numbers < 2^53 (Lua float64); canonical decimal formatting of numbers in Redis lists',
+                        'cuckoo: compared only until the first randomly chosen relocation; Top-K: up to the choice among entries tied at the smallest count',
+                        'HyperLogLog with m <= 64: only elements whose update does not fail (finding D4)'],
+        'timeout': 1800,
+    },
+    'C09': {
+        'lean_modules': ['C09'],
+        'required_theorems': ['C09_attach_roundtrip_bloom', 'C09_attach_roundtrip_bloom_params', 'C09_attach_roundtrip_cuckoo', 'C09_attach_roundtrip_cms',
+                              'C09_attach_roundtrip_hll', 'C09_attach_roundtrip_topk', 'C09_other_keys_irrelevant'],
+        'suites': ['reattach'],
+        'level': 'proof',
+        'explanation': 'Lean: for every Redis constructor the metadata hash it writes (field names and decimal formatting transcribed) is parsed back by the matching FromKey into the same handle (parameters and keys), and attach depends on nothing but that hash; '
+                       'all behaviour of a handle is a function of (parameters, keys, store). Suite `reattach` splits histories between the creating handle and handles re-attached at random points, one in a separate OS process, and compares parameters and every answer after every step.',
+        'assumptions': ['numbers < 2^63 (strconv.Atoi); Top-K k < 2^32 (ParseUint 32)', 'Import followed by re-attachment is outside the checked histories (Import does not rewrite the metadata hash: reported in DESIGN.md as D25)'],
+    },
+    'C10': {
+        'lean_modules': ['C10'],
+        'required_theorems': ['C10_roundtrip_bloomMem', 'C10_roundtrip_bloomRedis', 'C10_roundtrip_cuckooMem_partial', 'C10_roundtrip_cuckooRedis_partial',
+                              'C10_roundtrip_cmsMem', 'C10_roundtrip_cmsRedis', 'C10_roundtrip_hllMem', 'C10_roundtrip_hllRedis_partial',
+                              'C10_topk_utf8_partial', 'C10_roundtrip_topkRedis_partial', 'C10_redis_original_untouched', 'C10_bloom_redis_codec'],
+        'suites': ['json'],
+        'level': 'proof',
+        'explanation': 'Lean: Export/Import of all ten variants transcribed field by field (mirror records, Redis import scripts incl. the Lua loop bounds); import(export s) restores parameters and payload into an instance holding arbitrary other state, '
+                       'the Redis bitmap codec is an involution, imports under new keys write no pre-existing key; the Top-K theorem needs UTF-8-stable names (finding D23) and the Redis HLL one the unpack limit (finding D26). '
+                       'Suite `json` exports random reachable states of all ten variants, imports into busy instances, compares parameters/payload/queries/Equals, continues both copies in lock-step and checks the exporter untouched.',
+        'assumptions': ['encoding/json struct <-> bytes is the identity except for the UTF-8 coercion of strings', 'valid cuckoo fingerprints (finding D3)'],
+    },
+    'C17': {
+        'lean_modules': ['C17'],
+        'required_theorems': ['C17_total_CMSMem', 'C17_sound_CMSMem', 'C17_total_CuckooMem', 'C17_sound_CuckooMem', 'C17_total_CuckooRedis', 'C17_sound_CuckooRedis',
+                              'C17_sound_HLLMem', 'C17_sound_TopKMem', 'C17_sound_TopKRedis', 'C17_sound_BloomMem', 'C17_sound_BloomRedis',
+                              'C17_symm_TopKMem', 'C17_complete_CuckooMem'],
+        'suites': ['equals'],
+        'level': 'proof',
+        'explanation': 'Lean: the ten Equals methods transcribed with run-time panics as an explicit outcome (Go indexing / Lua nil semantics); for well-formed (reachable) states Equals never panics, is symmetric, returns true on identical states and true only on identical parameters and payload. '
+                       'Suite `equals` compares Equals both ways with a full state comparison on pairs from identical histories, one extra/missing operation, one entry mutated at first/middle/last position (crafted Import), one parameter changed; every observed result is replayed through the model.',
+        'assumptions': ['float parameters positive and finite; Top-K sketch non-nil (NewTopK with accuracy >= 1 builds no sketch)'],
+    },
+    'C19': {
+        'lean_modules': ['C19'],
+        'required_theorems': ['C19_disjoint', 'C19_keys_nodup', 'C19_noninterference', 'C19_noninterference_n', 'C19_import_new_keys', 'C19_frame_cms_update', 'C19_keysOfKind_cuckoo'],
+        'suites': ['isolation'],
+        'level': 'proof',
+        'explanation': 'Lean: key names of every structure transcribed; handles with distinct 16-letter base keys have disjoint key sets; operations supported on disjoint key sets do not interfere under ANY interleaving of any number of structures (each observes its solo run), an import under new keys changes no other key. '
+                       'Suite `isolation` runs 2-8 structures of random kinds in one database: every structure is compared step by step with its solo run, and the keys each operation changes must lie in the model key set of that structure and in no other structure.',
+        'assumptions': ['GenerateRandomString(16) returns pairwise distinct names of 16 ASCII letters (checked at run time by the key-set comparison, not proved)',
+                        'Redis executes each command / script atomically'],
+    },
 }
 
 # properties not (yet) claimed: reason shown in MANIFEST.not_applicable
